@@ -43,6 +43,10 @@ MUT = [
        '        # replace cells in table\n        saved = dict(self._indexes["_tmap"])\n        self.set_cells(cells, coord=start, clone=False)\n        self._indexes["_tmap"] = saved\n        return True\n\n    def del_span')]),
     ('seeded_C02-1', 'C02', True, 'independent: set_item_in_vault pops only the replaced slot from the cache when the write hits the first position of a run', 'seeded/C02-1/patch.diff'),
     ('seeded_C02-2', 'C02', True, 'independent: delete_item_in_vault `new_repeated > 1` (a run of exactly two)', 'seeded/C02-2/patch.diff'),
+    ('seeded_C02-3', 'C02', True, 'independent: optimize_width where the last row left after trimming is empty and repeated, and no column is trimmed by the same call', 'seeded/C02-3/patch.diff'),
+    ('seeded_C02-4', 'C02', True, 'independent: Table.set_row of a repeated row overflowing past its run (row vault: child position differs from run index)', 'seeded/C02-4/patch.diff'),
+    ('seeded_C02-5', 'C02', True, 'independent: set_column strictly beyond the width where the gap size differs from the new column`s repeat', 'seeded/C02-5/patch.diff'),
+    ('seeded_C02-6', 'C02', True, 'independent: Table.clear(), refill by appends only, then a point row read plus traverse_columns at the same run index', 'seeded/C02-6/patch.diff'),
     ('seeded_C08-1_on_C02', 'C02', True, 'independent: set_item_in_vault pops only the slot of the replaced item', 'seeded/C08-1/patch.diff'),
     # ---------------- C08
     ('c08_get_cell_no_x', 'C08', True, 'Table.get_cell without `cell.x = x` (Appendix C)',
